@@ -110,9 +110,10 @@ def pitch_law(F, S):
     r = returns(cb)
     t = resolve(cb.term(r[0]["value"]), alias_defs(cb)) if len(r) == 1 else None
     bc, w = P(cb, 0), P(cb, 1)
-    want = ("op", "/", ("op", "+", ("op", "*", w, bc), ("const", 7)), ("const", 8))
+    want = ("op", ">>", ("op", "+", ("op", "*", w, bc), ("const", 7)), ("const", 3))      # canonical spelling of (... + 7) / 8 on unsigned
     inst = IH + "::CalcPixelByteWidth#law"
-    if t == want:
+    if t == want or (t and t[0] == "op" and t[1] == ">>" and t[3] == ("const", 3) and t[2][0] == "op" and t[2][1] == "+" and t[2][3] == ("const", 7)
+                     and t[2][2] == ("op", "*", bc, w)):
         out.append(ok("R-ACCT", inst, cb.loc(r[0]["id"]), cb.qn, "bytes per row = (width * bitCount + 7) / 8", fmt_term(t)))
     else:
         out.append(bad("R-ACCT", inst, cb.loc(cb.body), cb.qn, "bytes per row = (width * bitCount + 7) / 8", "found %s" % (fmt_term(t) if t else "?")))
